@@ -9,6 +9,16 @@
 //! import kind=<k> cmpl=<not|id> nvars=<n> order=<l2v|-> file=<hex>                   -> ok <hdr> | <tree>.. / err:* / panic:* / reject:*
 //! ```
 //! Oracle-only operations (stream `dddmp_fuzz`, no model): `truncall ...`, `fuzz ...` (see `step`).
+//!
+//! Oracle-only suite `gen --suite oom` (stream `dddmp_oom`, no model): `export` lines (reference
+//! count oracles of the exporter, all five kinds) and
+//! ```text
+//! oom target=<kind> cmpl=<not|id> ascii=<0|1> ver=<2|3> roots=<f,..> res=<f,..|-> neg=<0|1>
+//!        -> ok ref=<ok|err> peak=<i>/<t> need=<i>/<t> runs=<n> oomfail=<k> retried=<r> | skip:* | bad-op
+//! ```
+//! which exports `roots` from the (large) scenario manager and imports the file into fresh managers
+//! of kind `target` whose inner-node capacity (and, for MTBDDs, terminal capacity) sweeps from
+//! "nothing free" up to just enough (see `oom_target`).
 #![allow(clippy::type_complexity)]
 
 use oxidd::bcdd::BCDDFunction;
@@ -235,6 +245,103 @@ fn mgr_info<M: Manager>(m: &M) -> MgrInfo {
     }
 }
 
+/// reference counts of all inner nodes as the public API reports them, plus the node counts
+#[derive(Clone, Debug, Default, PartialEq)]
+struct RcSnap {
+    /// node id -> (level, ref_count)
+    nodes: BTreeMap<oxidd::NodeID, (u32, usize)>,
+    n_inner: usize,
+    n_term: usize,
+}
+
+fn rc_snap<M: Manager>(m: &M) -> RcSnap
+where
+    M::InnerNode: HasLevel,
+{
+    use oxidd_core::LevelView;
+    let mut nodes = BTreeMap::new();
+    for view in m.levels() {
+        let l = view.level_no();
+        for e in view.iter() {
+            if let Node::Inner(n) = m.get_node(e) {
+                nodes.insert(e.node_id(), (l, n.ref_count()));
+            }
+        }
+    }
+    RcSnap { nodes, n_inner: m.num_inner_nodes(), n_term: m.num_terminals() }
+}
+
+fn describe_node<M: Manager>(m: &M, id: oxidd::NodeID) -> String
+where
+    M::InnerNode: HasLevel,
+    M::Terminal: AsciiDisplay,
+{
+    use oxidd_core::LevelView;
+    for view in m.levels() {
+        for e in view.iter() {
+            if e.node_id() == id {
+                let mut s = String::new();
+                tree_str(m, e, &mut s);
+                if s.len() > 160 {
+                    s.truncate(160);
+                    s.push_str("...");
+                }
+                return s;
+            }
+        }
+    }
+    "?".into()
+}
+
+/// the exporter's walk: how often each node is reached (children are followed on the first visit)
+fn visit_counts<M: Manager>(m: &M, e: &M::Edge, cnt: &mut BTreeMap<oxidd::NodeID, (bool, u32)>)
+where
+    M::InnerNode: HasLevel,
+{
+    match m.get_node(e) {
+        Node::Inner(n) => {
+            let c = cnt.entry(e.node_id()).or_insert((true, 0));
+            c.1 += 1;
+            if c.1 == 1 {
+                for ch in n.children() {
+                    visit_counts(m, &ch, cnt);
+                }
+            }
+        }
+        Node::Terminal(_) => {
+            cnt.entry(e.node_id()).or_insert((false, 0)).1 += 1;
+        }
+    }
+}
+
+/// first difference between two snapshots; `all`: nodes only present in `after` count too
+fn snap_diff(before: &RcSnap, after: &RcSnap, all: bool) -> Option<(oxidd::NodeID, String)> {
+    for (id, (l, rc)) in &before.nodes {
+        match after.nodes.get(id) {
+            None => return Some((*id, format!("the node at level {l} with ref_count {rc} is gone"))),
+            Some((l2, rc2)) => {
+                if l != l2 || rc != rc2 {
+                    return Some((*id, format!("ref_count {rc} (level {l}) before, {rc2} (level {l2}) after")));
+                }
+            }
+        }
+    }
+    if all {
+        for (id, (l, rc)) in &after.nodes {
+            if !before.nodes.contains_key(id) {
+                return Some((*id, format!("a new node at level {l} with ref_count {rc} exists")));
+            }
+        }
+        if before.n_inner != after.n_inner {
+            return Some((0, format!("num_inner_nodes() {} before, {} after", before.n_inner, after.n_inner)));
+        }
+    }
+    if before.n_term != after.n_term {
+        return Some((0, format!("num_terminals() {} before, {} after", before.n_term, after.n_term)));
+    }
+    None
+}
+
 // ------------------------------------------------------------------------------------------------
 // per-kind operations on concrete function types
 
@@ -257,6 +364,19 @@ trait KindF: Function + Clone + PartialEq + 'static {
     fn tree(&self) -> String;
     fn supp_levels(mref: &Self::ManagerRef, roots: &[&Self]) -> Vec<u32>;
     fn sane(&self) -> Result<(), String>;
+    /// manager with a hard inner-node capacity (and terminal capacity where terminals are dynamic)
+    fn new_mref_capped(inner: usize, terms: usize) -> Self::ManagerRef;
+    fn make_capped(nvars: u32, l2v: &[u32], inner: usize, terms: usize) -> Option<Self::ManagerRef>;
+    /// reference counts of all inner nodes (public API: `levels()` -> `ref_count()`) and the counts
+    fn snap(mref: &Self::ManagerRef) -> RcSnap;
+    /// `gc()`, then (`num_inner_nodes()`, `num_terminals()`)
+    fn gc_counts(mref: &Self::ManagerRef) -> (usize, usize);
+    /// (`num_inner_nodes()`, `num_terminals()`) without collecting
+    fn counts(mref: &Self::ManagerRef) -> (usize, usize);
+    /// unfolded tree of the inner node with the given id (for messages)
+    fn describe(mref: &Self::ManagerRef, id: oxidd::NodeID) -> String;
+    /// (inner nodes, terminals) that the exporter's walk from `roots` reaches more than once
+    fn sharing(mref: &Self::ManagerRef, roots: &[&Self]) -> (usize, usize);
     /// `dddmp::import` with `support_vars`; `not`: pass `not_edge_owned` as complement, else identity
     fn import(
         mref: &Self::ManagerRef,
@@ -354,6 +474,43 @@ macro_rules! common_kind_fns {
         fn info(mref: &Self::ManagerRef) -> MgrInfo {
             mref.with_manager_shared(|manager| mgr_info(manager))
         }
+        fn make_capped(nvars: u32, l2v: &[u32], inner: usize, terms: usize) -> Option<Self::ManagerRef> {
+            let mref = Self::new_mref_capped(inner, terms);
+            mref.with_manager_exclusive(|m| {
+                m.add_vars(nvars);
+                if !l2v.is_empty() {
+                    oxidd_reorder::set_var_order(m, l2v);
+                }
+            });
+            Some(mref)
+        }
+        fn snap(mref: &Self::ManagerRef) -> RcSnap {
+            mref.with_manager_shared(|manager| rc_snap(manager))
+        }
+        fn gc_counts(mref: &Self::ManagerRef) -> (usize, usize) {
+            mref.with_manager_shared(|manager| {
+                manager.gc();
+                (manager.num_inner_nodes(), manager.num_terminals())
+            })
+        }
+        fn counts(mref: &Self::ManagerRef) -> (usize, usize) {
+            mref.with_manager_shared(|manager| (manager.num_inner_nodes(), manager.num_terminals()))
+        }
+        fn describe(mref: &Self::ManagerRef, id: oxidd::NodeID) -> String {
+            mref.with_manager_shared(|manager| describe_node(manager, id))
+        }
+        fn sharing(mref: &Self::ManagerRef, roots: &[&Self]) -> (usize, usize) {
+            mref.with_manager_shared(|manager| {
+                let mut cnt = BTreeMap::new();
+                for r in roots {
+                    visit_counts(manager, r.as_edge(manager), &mut cnt);
+                }
+                (
+                    cnt.values().filter(|(inner, c)| *inner && *c > 1).count(),
+                    cnt.values().filter(|(inner, c)| !*inner && *c > 1).count(),
+                )
+            })
+        }
         fn make(nvars: u32, l2v: &[u32], names: Option<&[String]>) -> Option<Self::ManagerRef> {
             let mref = Self::new_mref(nvars);
             let ok = mref.with_manager_exclusive(|m| {
@@ -409,6 +566,9 @@ macro_rules! bool_kind {
                 let cap = node_capacity(nvars);
                 $new(cap, 1 << 12, 1)
             }
+            fn new_mref_capped(inner: usize, _terms: usize) -> Self::ManagerRef {
+                $new(inner, 1 << 8, 1)
+            }
             fn build(mref: &Self::ManagerRef, nvars: u32, spec: &str) -> Option<Self> {
                 build_bool::<$ty>(mref, nvars, spec)
             }
@@ -445,6 +605,9 @@ impl KindF for MT {
     const CAN_IMPORT: bool = true;
     fn new_mref(nvars: u32) -> Self::ManagerRef {
         oxidd::mtbdd::new_manager::<I64>(node_capacity(nvars), 1 << 10, 1 << 12, 1)
+    }
+    fn new_mref_capped(inner: usize, terms: usize) -> Self::ManagerRef {
+        oxidd::mtbdd::new_manager::<I64>(inner, terms, 1 << 8, 1)
     }
     fn build(mref: &Self::ManagerRef, nvars: u32, spec: &str) -> Option<Self> {
         let vals: Vec<I64> = spec.strip_prefix("vals=")?.split(',').map(parse_i64_term).collect::<Option<_>>()?;
@@ -506,6 +669,9 @@ impl KindF for TDDFunction {
     const CAN_IMPORT: bool = false;
     fn new_mref(nvars: u32) -> Self::ManagerRef {
         oxidd::tdd::new_manager(node_capacity(nvars), 1 << 12, 1)
+    }
+    fn new_mref_capped(inner: usize, _terms: usize) -> Self::ManagerRef {
+        oxidd::tdd::new_manager(inner, 1 << 8, 1)
     }
     /// `tv=<digits>`: one digit (0 = F, 1 = T, 2 = U) per Boolean assignment; Shannon expansion with
     /// the ternary `ite`
@@ -595,6 +761,11 @@ impl<F: KindF> Mgr<F> {
         F::make(nvars, l2v, names).map(|m| Mgr(Some(m)))
     }
 }
+impl<F: KindF> Mgr<F> {
+    fn new_capped(nvars: u32, l2v: &[u32], inner: usize, terms: usize) -> Option<Self> {
+        F::make_capped(nvars, l2v, inner, terms).map(|m| Mgr(Some(m)))
+    }
+}
 impl<F: KindF> std::ops::Deref for Mgr<F> {
     type Target = F::ManagerRef;
     fn deref(&self) -> &F::ManagerRef {
@@ -615,6 +786,10 @@ impl<F: KindF> Drop for Mgr<F> {
 struct World<F: KindF> {
     mref: Mgr<F>,
     funcs: Vec<(String, F)>,
+    /// how the manager and the functions were made (for the twin of the drain oracle)
+    l2v: Vec<u32>,
+    names: Option<Vec<String>>,
+    specs: Vec<(String, String)>,
 }
 
 #[derive(Clone, Debug)]
@@ -1061,6 +1236,20 @@ fn report_panic(ctx: &mut Ctx, what: &str, msg: &str) {
     }
 }
 
+/// at most three reports per case and signature
+fn report_limited(ctx: &mut Ctx, sig: &'static str, msg: &str) {
+    ctx.count(&format!("fail-{sig}"));
+    let n = REPORTED.with(|r| {
+        let mut r = r.borrow_mut();
+        let e = r.entry((ctx.case.clone(), sig)).or_insert(0);
+        *e += 1;
+        *e
+    });
+    if n <= 3 {
+        ctx.fail(sig, msg);
+    }
+}
+
 trait DynWorld {
     fn define(&mut self, name: &str, spec: &str) -> bool;
     fn info(&self) -> MgrInfo;
@@ -1070,9 +1259,118 @@ trait DynWorld {
     -> String;
     fn truncall(&self, st: &ExpSettings, specs: &[RootSpec], ctx: &mut Ctx) -> String;
     fn fuzz(&self, st: &ExpSettings, specs: &[RootSpec], seed: u64, n: u64, ctx: &mut Ctx) -> String;
+    fn oom(&self, a: &OomArgs, ctx: &mut Ctx) -> String;
 }
 
 impl<F: KindF> World<F> {
+    /// the real exporter under the oracle "an export does not change any reference count": the
+    /// reference counts of all inner nodes (`levels()` -> `ref_count()`), `num_inner_nodes()` and
+    /// `num_terminals()` are the same before and after. `None`: the exporter panicked (reported).
+    fn export_checked(&self, roots: &[(&F, String)], named: bool, st: &ExpSettings, ctx: &mut Ctx) -> Option<(Vec<u8>, io::Result<()>)> {
+        let before = F::snap(&self.mref);
+        let r = catch_unwind(AssertUnwindSafe(|| F::export(&self.mref, roots, named, st)));
+        let (file, res) = match r {
+            Ok(x) => x,
+            Err(e) => {
+                ctx.fail("export-panic", &format!("exporter panicked: {}", panic_msg(e)));
+                return None;
+            }
+        };
+        let after = F::snap(&self.mref);
+        let mode = if file_mode_is_ascii(&file) { "ascii" } else { "binary" };
+        let fs: Vec<&F> = roots.iter().map(|(f, _)| *f).collect();
+        let (sh_i, sh_t) = F::sharing(&self.mref, &fs);
+        ctx.count(&format!("rc-export-{}-{mode}", F::KIND));
+        if sh_i > 0 {
+            ctx.count(&format!("rc-export-shared-inner-{}-{mode}", F::KIND));
+        }
+        if sh_t > 0 {
+            ctx.count(&format!("rc-export-shared-terminal-{}-{mode}", F::KIND));
+        }
+        if let Some((id, d)) = snap_diff(&before, &after, true) {
+            let node = if id != 0 { F::describe(&self.mref, id) } else { "-".into() };
+            report_limited(
+                ctx,
+                "export-changes-refcount",
+                &format!(
+                    "export kind={} mode={mode} v3={} named={named} of {} root(s) ({sh_i} inner node(s) and {sh_t} terminal(s) reached more than once) changed the manager: {d}; node {node}",
+                    F::KIND,
+                    st.v3,
+                    roots.len()
+                ),
+            );
+        }
+        Some((file, res))
+    }
+
+    /// build all functions of this world again in an identically made manager, optionally export
+    /// there, drop all handles and collect: (counts of the empty manager, counts at the end)
+    fn twin_drain(&self, st: &ExpSettings, specs: &[RootSpec], named: bool, with_export: bool) -> Option<((usize, usize), (usize, usize))> {
+        let info = F::info(&self.mref);
+        let twin = Mgr::<F>::new(info.nvars, &self.l2v, self.names.as_deref())?;
+        let base = F::gc_counts(&twin);
+        {
+            let mut built: Vec<(String, F)> = Vec::new();
+            for (name, spec) in &self.specs {
+                let f = F::build(&twin, info.nvars, spec)?;
+                built.retain(|(n, _)| n != name);
+                built.push((name.clone(), f));
+            }
+            if with_export {
+                let roots: Vec<(&F, String)> = specs
+                    .iter()
+                    .map(|r| {
+                        let f = built.iter().find(|(n, _)| *n == r.func).map(|(_, f)| f)?;
+                        Some((f, String::from_utf8(r.name.clone().unwrap_or_default()).ok()?))
+                    })
+                    .collect::<Option<_>>()?;
+                let _ = catch_unwind(AssertUnwindSafe(|| F::export(&twin, &roots, named, st)));
+            }
+        }
+        Some((base, F::gc_counts(&twin)))
+    }
+
+    /// oracle "after an export, dropping all handles and `gc()` brings the manager back to its
+    /// baseline" (this is what sees a surplus reference to a terminal: terminals report no
+    /// reference count). Evaluated in a twin manager so that the scenario's handles stay.
+    fn export_drain_oracle(&self, st: &ExpSettings, specs: &[RootSpec], named: bool, ctx: &mut Ctx) {
+        if F::info(&self.mref).nvars > 10 {
+            return;
+        }
+        let Some((base, end)) = self.twin_drain(st, specs, named, true) else { return };
+        ctx.count(&format!("rc-drain-{}", F::KIND));
+        if base == end {
+            return;
+        }
+        // attribute: the same without the export
+        if let Some((b2, e2)) = self.twin_drain(st, specs, named, false) {
+            if b2 != e2 {
+                report_limited(
+                    ctx,
+                    "build-leaks-reference",
+                    &format!("kind={}: after building the functions, dropping them and gc() the manager holds {} inner nodes / {} terminals, empty it held {} / {}", F::KIND, e2.0, e2.1, b2.0, b2.1),
+                );
+                return;
+            }
+        }
+        let sig = if base.0 != end.0 { "export-leaks-inner" } else { "export-leaks-terminal" };
+        report_limited(
+            ctx,
+            sig,
+            &format!(
+                "export kind={} ascii={} v3={} named={named} roots={:?}: after the export, dropping every handle and gc() the manager holds {} inner nodes / {} terminals; before any function was built it held {} / {} (without the export it returns to that)",
+                F::KIND,
+                st.ascii,
+                st.v3,
+                specs.iter().map(|r| r.func.as_str()).collect::<Vec<_>>(),
+                end.0,
+                end.1,
+                base.0,
+                base.1
+            ),
+        );
+    }
+
     fn orig_trees(&self, specs: &[RootSpec]) -> Vec<String> {
         specs.iter().map(|r| self.get(&r.func).map(|f| f.tree()).unwrap_or_default()).collect()
     }
@@ -1271,6 +1569,7 @@ impl<F: KindF> DynWorld for World<F> {
             Some(f) => {
                 self.funcs.retain(|(n, _)| n != name);
                 self.funcs.push((name.to_string(), f));
+                self.specs.push((name.to_string(), spec.to_string()));
                 true
             }
             None => false,
@@ -1289,15 +1588,9 @@ impl<F: KindF> DynWorld for World<F> {
     }
     fn export_step(&self, st: &ExpSettings, specs: &[RootSpec], named: bool, line_sv: Option<&SView>, ctx: &mut Ctx) -> String {
         let Some(roots) = self.roots(specs) else { return "bad-op".into() };
-        let r = catch_unwind(AssertUnwindSafe(|| F::export(&self.mref, &roots, named, st)));
-        let (file, res) = match r {
-            Ok(x) => x,
-            Err(e) => {
-                ctx.fail("export-panic", &format!("exporter panicked: {}", panic_msg(e)));
-                return "panic".into();
-            }
-        };
+        let Some((file, res)) = self.export_checked(&roots, named, st, ctx) else { return "panic".into() };
         ctx.count(&format!("export-{}-{}", F::KIND, if file_mode_is_ascii(&file) { "ascii" } else { "binary" }));
+        self.export_drain_oracle(st, specs, named, ctx);
         // the structured view really describes the exported roots
         match self.sview(specs) {
             Some(sv) => {
@@ -1375,6 +1668,500 @@ impl<F: KindF> DynWorld for World<F> {
         ctx.add("fuzz-panic", pan);
         format!("ok={ok} err={err} panic={pan} reject={rej}")
     }
+    fn oom(&self, a: &OomArgs, ctx: &mut Ctx) -> String {
+        let nvars = F::info(&self.mref).nvars;
+        let (Some(roots), Some(res)) = (self.roots(&a.roots), self.roots(&a.res)) else { return "bad-op".into() };
+        if !F::CAN_IMPORT || nvars > 12 {
+            return "bad-op".into();
+        }
+        let Some((file, r)) = self.export_checked(&roots, false, &a.st, ctx) else { return "panic".into() };
+        if r.is_err() {
+            return "bad-op".into();
+        }
+        let ascii = file_mode_is_ascii(&file);
+        if F::KIND != a.target && ascii && !["bdd", "bcdd", "zbdd"].contains(&a.target.as_str()) {
+            return "bad-op".into();
+        }
+        let mut file = if ascii { retarget_terminals(&file, &a.target) } else { file };
+        if a.neg {
+            file = negate_rootids(&file);
+        }
+        let resfile = if res.is_empty() {
+            None
+        } else {
+            let st = ExpSettings { ascii: true, v3: false, strict: false, dd: String::new() };
+            let Some((f, _)) = self.export_checked(&res, false, &st, ctx) else { return "panic".into() };
+            Some(retarget_terminals(&f, &a.target))
+        };
+        // what the imported roots must be, where the two kinds read a file in the same way
+        let same_reading = F::KIND == a.target || (matches!(F::KIND, "bdd" | "bcdd") && matches!(a.target.as_str(), "bdd" | "bcdd"));
+        let expected: Option<Vec<String>> = same_reading.then(|| {
+            roots
+                .iter()
+                .map(|(f, _)| {
+                    let t = f.table(nvars);
+                    if a.neg && a.not && F::KIND != "mtbdd" {
+                        t.chars().map(|c| if c == '0' { '1' } else { '0' }).collect()
+                    } else {
+                        t
+                    }
+                })
+                .collect()
+        });
+        let order = F::info(&self.mref).l2v;
+        let p = OomParams { src_kind: F::KIND, order: &order, file: &file, resfile: resfile.as_deref(), not: a.not, expected: expected.as_deref() };
+        match a.target.as_str() {
+            "bdd" => oom_target::<BDDFunction>(&p, ctx),
+            "bcdd" => oom_target::<BCDDFunction>(&p, ctx),
+            "zbdd" => oom_target::<ZBDDFunction>(&p, ctx),
+            "mtbdd" if F::KIND == "mtbdd" => oom_target::<MT>(&p, ctx),
+            _ => "bad-op".into(),
+        }
+    }
+}
+
+// ------------------------------------------------------------------------------------------------
+// imports under resource exhaustion (oracle only)
+
+#[derive(Clone, Debug)]
+struct OomArgs {
+    target: String,
+    not: bool,
+    st: ExpSettings,
+    roots: Vec<RootSpec>,
+    res: Vec<RootSpec>,
+    neg: bool,
+}
+
+struct OomParams<'a> {
+    src_kind: &'static str,
+    /// variable order of the exporting manager (the target managers get the same)
+    order: &'a [u32],
+    file: &'a [u8],
+    /// ASCII export of the functions that live in the target manager before the import
+    resfile: Option<&'a [u8]>,
+    not: bool,
+    /// value tables the imported roots must have (`None`: only the reference import is known)
+    expected: Option<&'a [String]>,
+}
+
+/// rewrite the terminal descriptors of an ASCII node section for another Boolean kind
+/// (`T`/`F` <-> `B`/`E`); the node structure stays as exported
+fn retarget_terminals(file: &[u8], target: &str) -> Vec<u8> {
+    let (ns, ne) = nodes_region(file);
+    if !file_mode_is_ascii(file) {
+        return file.to_vec();
+    }
+    let mut out = file[..ns].to_vec();
+    for l in file[ns..ne].split_inclusive(|&b| b == b'\n') {
+        let body = l.strip_suffix(b"\n").unwrap_or(l);
+        let w: Vec<&[u8]> = body.split(|&b| b == b' ').collect();
+        if w.len() >= 3 && w[2..].iter().all(|c| *c == b"0") {
+            let d: &[u8] = match (target, w[1]) {
+                ("zbdd", b"T") => b"B",
+                ("zbdd", b"F") => b"E",
+                ("bdd" | "bcdd", b"B") => b"T",
+                ("bdd" | "bcdd", b"E") => b"F",
+                (_, d) => d,
+            };
+            out.extend_from_slice(w[0]);
+            out.push(b' ');
+            out.extend_from_slice(d);
+            for c in &w[2..] {
+                out.push(b' ');
+                out.extend_from_slice(c);
+            }
+            if l.ends_with(b"\n") {
+                out.push(b'\n');
+            }
+        } else {
+            out.extend_from_slice(l);
+        }
+    }
+    out.extend_from_slice(&file[ne..]);
+    out
+}
+
+/// flip the sign of every entry of `.rootids`: the importer then complements every root
+fn negate_rootids(file: &[u8]) -> Vec<u8> {
+    let (ns, _) = nodes_region(file);
+    let mut out = Vec::with_capacity(file.len() + 8);
+    let mut pos = 0;
+    for l in file[..ns].split_inclusive(|&b| b == b'\n') {
+        if let Some(r) = l.strip_prefix(b".rootids") {
+            out.extend_from_slice(b".rootids");
+            for t in String::from_utf8_lossy(r).split_ascii_whitespace() {
+                out.push(b' ');
+                match t.strip_prefix('-') {
+                    Some(p) => out.extend_from_slice(p.as_bytes()),
+                    None => {
+                        out.push(b'-');
+                        out.extend_from_slice(t.as_bytes());
+                    }
+                }
+            }
+            out.push(b'\n');
+        } else {
+            out.extend_from_slice(l);
+        }
+        pos += l.len();
+    }
+    out.extend_from_slice(&file[pos..]);
+    out
+}
+
+enum Imp<F> {
+    Panic(String),
+    LoadErr,
+    Err(io::ErrorKind, String),
+    Ok(Vec<F>),
+}
+
+/// load the header and import with `header.support_var_order()` (as `oxidd-cli` does), keeping the
+/// error kind
+fn import_kind<F: KindF>(mref: &F::ManagerRef, file: &[u8], not: bool) -> Imp<F> {
+    let mut rd: &[u8] = file;
+    let header = match catch_unwind(AssertUnwindSafe(|| DumpHeader::load(&mut rd))) {
+        Err(e) => return Imp::Panic(panic_msg(e)),
+        Ok(Err(_)) => return Imp::LoadErr,
+        Ok(Ok(h)) => h,
+    };
+    let support: Vec<u32> = header.support_var_order().to_vec();
+    match catch_unwind(AssertUnwindSafe(|| F::import(mref, &mut rd, &header, &support, not))) {
+        Err(e) => Imp::Panic(panic_msg(e)),
+        Ok(Err(e)) => Imp::Err(e.kind(), e.to_string()),
+        Ok(Ok(roots)) => Imp::Ok(roots),
+    }
+}
+
+fn views<F: KindF>(fs: &[F], nvars: u32) -> (Vec<String>, Vec<String>) {
+    (fs.iter().map(|f| f.tree()).collect(), fs.iter().map(|f| f.table(nvars)).collect())
+}
+
+/// what the import gives without any limit
+enum RefOut {
+    Ok(Vec<String>, Vec<String>),
+    Err(io::ErrorKind),
+}
+
+enum RunOut {
+    /// out of memory (or a panic): the capacity was not enough
+    Fail,
+    /// the import ended as it does without a limit
+    Done,
+    /// the run could not be set up / went wrong in a way that ends the sweep
+    Stop,
+}
+
+struct OomSweep<'a, G: KindF> {
+    p: &'a OomParams<'a>,
+    tag: String,
+    nvars: u32,
+    order: Vec<u32>,
+    /// same-kind ASCII file of the resident functions
+    res_file: Option<Vec<u8>>,
+    refout: RefOut,
+    /// nodes / terminals a fresh manager allocates for the import (nothing is collected there)
+    peak: (usize, usize),
+    runs: u64,
+    fails: u64,
+    retried: u64,
+    _g: std::marker::PhantomData<G>,
+}
+
+impl<G: KindF> OomSweep<'_, G> {
+    fn what(&self, ci: usize, ct: usize) -> String {
+        format!(
+            "import of a {} file into a {} manager with capacity inner={ci}{} (cmpl={}, {} resident function(s))",
+            self.tag,
+            G::KIND,
+            if G::KIND == "mtbdd" { format!(" terminals={ct}") } else { String::new() },
+            if self.p.not { "not" } else { "id" },
+            if self.res_file.is_some() { "with" } else { "no" }
+        )
+    }
+
+    /// the roots of a finished import against the unlimited import and the exported functions
+    fn check_result(&self, out: &Imp<G>, what: &str, ctx: &mut Ctx) -> bool {
+        match (out, &self.refout) {
+            (Imp::Ok(roots), RefOut::Ok(trees, tables)) => {
+                let (t, tb) = views(roots, self.nvars);
+                if t != *trees || tb != *tables {
+                    report_limited(ctx, "oom-import-wrong-function", &format!("{what}: succeeds with {t:?}, without a limit the roots are {trees:?}"));
+                    return false;
+                }
+                if let Some(exp) = self.p.expected {
+                    if tb != exp {
+                        report_limited(ctx, "oom-import-wrong-function", &format!("{what}: value tables {tb:?}, exported {exp:?}"));
+                        return false;
+                    }
+                }
+                true
+            }
+            (Imp::Err(k, _), RefOut::Err(k2)) if k == k2 => true,
+            (Imp::Ok(_), RefOut::Err(k)) => {
+                report_limited(ctx, "oom-import-wrong-function", &format!("{what}: succeeds, without a limit the import fails with {k:?}"));
+                false
+            }
+            _ => false,
+        }
+    }
+
+    /// one import into a fresh manager with the given capacities
+    fn run(&mut self, ci: usize, ct: usize, ctx: &mut Ctx) -> RunOut {
+        let what = self.what(ci, ct);
+        self.runs += 1;
+        let Some(m) = Mgr::<G>::new_capped(self.nvars, &self.order, ci, ct) else { return RunOut::Stop };
+        let base = G::gc_counts(&m);
+        // the functions that are already there
+        let residents: Vec<G> = match &self.res_file {
+            None => Vec::new(),
+            Some(rf) => match import_kind::<G>(&m, rf, true) {
+                Imp::Ok(r) => r,
+                Imp::Panic(msg) => {
+                    report_limited(ctx, "oom-import-panic", &format!("{what}: importing the resident functions panicked: {msg}"));
+                    std::mem::forget(m);
+                    return RunOut::Stop;
+                }
+                Imp::Err(_, e) => {
+                    report_limited(ctx, "oom-resident-import-fails", &format!("{what}: the resident functions need exactly the inner nodes / terminals that are free, but their import fails: {e}"));
+                    return RunOut::Stop;
+                }
+                Imp::LoadErr => return RunOut::Stop,
+            },
+        };
+        let res_view = views(&residents, self.nvars);
+        let counts0 = G::gc_counts(&m);
+        let snap0 = G::snap(&m);
+        let out = import_kind::<G>(&m, self.p.file, self.p.not);
+        let finished = match (&out, &self.refout) {
+            (Imp::Ok(_), _) => true,
+            (Imp::Err(k, _), RefOut::Err(k2)) => k == k2,
+            _ => false,
+        };
+        let dim = if G::KIND == "mtbdd" && G::counts(&m).1 >= ct { "terminal" } else { "inner" };
+        match &out {
+            Imp::Panic(msg) => {
+                ctx.count(&format!("oom-panic-{}", self.tag));
+                report_limited(ctx, "oom-import-panic", &format!("{what}: the importer panicked instead of returning an error: {msg}"));
+                // the manager may hold half-built state: leak it
+                std::mem::forget(residents);
+                std::mem::forget(m);
+                self.fails += 1;
+                return RunOut::Fail;
+            }
+            Imp::LoadErr => return RunOut::Stop,
+            Imp::Err(k, e) if !finished => {
+                self.fails += 1;
+                ctx.count(&format!("oom-fail-{}", self.tag));
+                ctx.count(&format!("oom-fail-dim-{dim}"));
+                if *k != io::ErrorKind::OutOfMemory {
+                    report_limited(ctx, "oom-import-error-kind", &format!("{what}: fails with {k:?} ({e}) although the file is valid; expected ErrorKind::OutOfMemory"));
+                }
+            }
+            _ => {
+                ctx.count(&format!("oom-done-{}", self.tag));
+            }
+        }
+        // --- the manager after the import (failed or not)
+        // (reference counts are compared after gc(): until then the dead nodes of the attempt
+        // still count as parents of the nodes they point to)
+        let held = matches!(out, Imp::Ok(_));
+        // (1) the existing handles are intact
+        if views(&residents, self.nvars) != res_view {
+            report_limited(ctx, "oom-import-corrupts-handle", &format!("{what}: a function that existed before the import changed: {:?} -> {:?}", res_view.0, views(&residents, self.nvars).0));
+        }
+        // (2) the result
+        let good = finished && self.check_result(&out, &what, ctx);
+        if let (true, Imp::Ok(roots)) = (good, &out) {
+            check_imported::<G>(&m, roots, ctx, &what);
+        }
+        drop(out);
+        // (3) everything the import made is collected: node counts, terminal count and every
+        // reference count are exactly as before
+        let counts1 = G::gc_counts(&m);
+        let snap2 = G::snap(&m);
+        if counts1 != counts0 {
+            report_limited(
+                ctx,
+                "oom-import-leak",
+                &format!("{what}: after the import{}, dropping its roots and gc() the manager holds {} inner nodes / {} terminals, before the import {} / {}", if held { "" } else { " failed" }, counts1.0, counts1.1, counts0.0, counts0.1),
+            );
+        } else if let Some((id, d)) = snap_diff(&snap0, &snap2, true) {
+            let node = if id != 0 { G::describe(&m, id) } else { "-".into() };
+            report_limited(ctx, "oom-import-leak", &format!("{what}: after the import, dropping its roots and gc() the reference counts differ from before: {d}; node {node}"));
+        }
+        // (4) without the resident functions the manager is empty again
+        drop(residents);
+        let counts2 = G::gc_counts(&m);
+        if counts2 != base {
+            report_limited(
+                ctx,
+                "oom-import-leak",
+                &format!("{what}: after dropping every handle and gc() the manager holds {} inner nodes / {} terminals, empty it held {} / {}", counts2.0, counts2.1, base.0, base.1),
+            );
+        }
+        // (5) a retry with enough room succeeds
+        if !finished {
+            let room_i = ci.saturating_sub(counts2.0) >= self.peak.0;
+            let room_t = G::KIND != "mtbdd" || ct.saturating_sub(counts2.1) >= self.peak.1;
+            if room_i && room_t {
+                self.retried += 1;
+                ctx.count("oom-retry");
+                let again = import_kind::<G>(&m, self.p.file, self.p.not);
+                let ok = match (&again, &self.refout) {
+                    (Imp::Ok(_), RefOut::Ok(..)) => self.check_result(&again, &format!("{what}, retry after dropping the other functions and gc()"), ctx),
+                    (Imp::Err(k, _), RefOut::Err(k2)) => k == k2,
+                    _ => false,
+                };
+                if let Imp::Panic(msg) = &again {
+                    report_limited(ctx, "oom-import-panic", &format!("{what}: the retry panicked: {msg}"));
+                    std::mem::forget(again);
+                    std::mem::forget(m);
+                    return RunOut::Fail;
+                }
+                if !ok {
+                    let d = match &again {
+                        Imp::Err(k, e) => format!("fails with {k:?} ({e})"),
+                        _ => "gives other functions".into(),
+                    };
+                    report_limited(
+                        ctx,
+                        "oom-retry-fails",
+                        &format!("{what}: after the failure every handle was dropped and gc() ran; {} inner nodes are free and a fresh manager needs {}, but the retry {d}", ci.saturating_sub(counts2.0), self.peak.0),
+                    );
+                }
+                drop(again);
+                if G::gc_counts(&m) != base {
+                    report_limited(ctx, "oom-import-leak", &format!("{what}: after the retry, dropping its roots and gc() the manager is not empty"));
+                }
+            } else {
+                ctx.count("oom-retry-no-room");
+            }
+        }
+        if finished { RunOut::Done } else { RunOut::Fail }
+    }
+}
+
+/// Export file -> fresh managers of kind `G` with every capacity from "nothing free" to "just
+/// enough". Oracles (signatures `oom-*`): the import returns `Ok` with the functions of the
+/// unlimited import / the exported value tables, or `ErrorKind::OutOfMemory`; never a panic; after
+/// a failure the functions that were there are intact and `gc()` brings the manager back to exactly
+/// the state before: node and terminal counts and the reference count of every node (and, after
+/// dropping every handle, to the empty manager); a retry in the same manager succeeds once enough is free; success is monotone in the
+/// capacity and never needs more than a fresh manager allocates.
+fn oom_target<G: KindF>(p: &OomParams, ctx: &mut Ctx) -> String {
+    let ascii = file_mode_is_ascii(p.file);
+    let tag = format!("{}-to-{}-{}", p.src_kind, G::KIND, if ascii { "ascii" } else { "binary" });
+    let mut rd: &[u8] = p.file;
+    let Ok(header) = DumpHeader::load(&mut rd) else { return "err:load".into() };
+    let (nvars, order) = (header.num_vars(), p.order.to_vec());
+    if order.len() != nvars as usize {
+        return "bad-op".into();
+    }
+    // --- without a limit, in a fresh manager: the outcome and what it allocates
+    let Some(am) = Mgr::<G>::new(nvars, &order, None) else { return "bad-op".into() };
+    let base = G::gc_counts(&am);
+    let refimp = import_kind::<G>(&am, p.file, p.not);
+    let used = G::counts(&am);
+    let peak = (used.0 - base.0, used.1.saturating_sub(base.1));
+    let refout = match &refimp {
+        Imp::Panic(msg) => {
+            report_panic(ctx, &format!("oom reference import of a {tag} file"), msg);
+            std::mem::forget(refimp);
+            std::mem::forget(am);
+            return "panic:import".into();
+        }
+        Imp::LoadErr => return "err:load".into(),
+        Imp::Err(k, _) => RefOut::Err(*k),
+        Imp::Ok(roots) => {
+            let (t, tb) = views(roots, nvars);
+            if let Some(exp) = p.expected {
+                if tb != exp {
+                    report_limited(ctx, "oom-import-wrong-function", &format!("import of a {tag} file without a limit: value tables {tb:?}, exported {exp:?}"));
+                }
+            }
+            RefOut::Ok(t, tb)
+        }
+    };
+    drop(refimp);
+    // --- the resident functions as a file of the target kind, and their size
+    let (mut res_file, mut res_size) = (None, (0usize, 0usize));
+    if let Some(rf) = p.resfile {
+        let Some(rm) = Mgr::<G>::new(nvars, &order, None) else { return "bad-op".into() };
+        let rbase = G::gc_counts(&rm);
+        match import_kind::<G>(&rm, rf, true) {
+            Imp::Ok(rs) => {
+                let c = G::gc_counts(&rm);
+                res_size = (c.0 - rbase.0, c.1.saturating_sub(rbase.1));
+                let st = ExpSettings { ascii: true, v3: false, strict: false, dd: String::new() };
+                let roots: Vec<(&G, String)> = rs.iter().map(|f| (f, String::new())).collect();
+                res_file = Some(G::export(&rm, &roots, false, &st).0);
+            }
+            Imp::Panic(msg) => {
+                report_panic(ctx, &format!("oom resident import of a {tag} file"), &msg);
+                std::mem::forget(rm);
+                return "panic:import".into();
+            }
+            _ => ctx.count("oom-resident-not-importable"),
+        }
+    }
+    let is_mt = G::KIND == "mtbdd";
+    let full_i = base.0 + res_size.0 + peak.0;
+    // capacities of 100 and more enable the background collector: not deterministic any more
+    if full_i + 2 >= 100 {
+        ctx.count("oom-skipped-too-big");
+        return format!("skip:size peak={}/{} res={}/{}", peak.0, peak.1, res_size.0, res_size.1);
+    }
+    ctx.count(&format!("oom-line-{tag}"));
+    let ref_s = if matches!(refout, RefOut::Ok(..)) { "ok" } else { "err" };
+    let mut sw = OomSweep::<G> { p, tag, nvars, order, res_file, refout, peak, runs: 0, fails: 0, retried: 0, _g: std::marker::PhantomData };
+    // --- terminal capacity (enough inner nodes)
+    let mut need_t = 0usize;
+    if is_mt {
+        let mut found = false;
+        for extra in 0..=peak.1 + 1 {
+            match sw.run(full_i, res_size.1 + extra, ctx) {
+                RunOut::Done => {
+                    need_t = extra;
+                    found = true;
+                    break;
+                }
+                RunOut::Fail => {}
+                RunOut::Stop => break,
+            }
+        }
+        if !found {
+            report_limited(ctx, "oom-import-spurious", &format!("import of a {} file into an mtbdd manager: still failing with {} free terminal slots and {} free inner nodes; a fresh manager allocates {} / {}", sw.tag, peak.1 + 1, peak.0, peak.1, peak.0));
+            return format!("fail ref={ref_s} peak={}/{} runs={} oomfail={}", peak.0, peak.1, sw.runs, sw.fails);
+        }
+    }
+    // --- inner-node capacity (terminal capacity just enough)
+    let ct = res_size.1 + need_t;
+    let mut need_i = None;
+    for extra in 0..=peak.0 + 1 {
+        match sw.run(base.0 + res_size.0 + extra, ct, ctx) {
+            RunOut::Done => {
+                need_i = Some(extra);
+                break;
+            }
+            RunOut::Fail => {}
+            RunOut::Stop => break,
+        }
+    }
+    let Some(need_i) = need_i else {
+        report_limited(ctx, "oom-import-spurious", &format!("import of a {} file into a {} manager: still failing with {} free inner nodes; a fresh manager allocates {}", sw.tag, G::KIND, peak.0 + 1, peak.0));
+        return format!("fail ref={ref_s} peak={}/{} runs={} oomfail={}", peak.0, peak.1, sw.runs, sw.fails);
+    };
+    if need_i > peak.0 || need_t > peak.1 {
+        report_limited(ctx, "oom-import-spurious", &format!("import of a {} file into a {} manager needs {need_i} free inner nodes / {need_t} free terminals, a fresh manager allocates only {} / {}", sw.tag, G::KIND, peak.0, peak.1));
+    }
+    // --- monotone: one more free node does not make it fail
+    if !matches!(sw.run(base.0 + res_size.0 + need_i + 1, ct, ctx), RunOut::Done) {
+        report_limited(ctx, "oom-not-monotone", &format!("import of a {} file into a {} manager succeeds with {need_i} free inner nodes but not with {}", sw.tag, G::KIND, need_i + 1));
+    }
+    ctx.add("oom-runs", sw.runs);
+    format!("ok ref={ref_s} peak={}/{} need={need_i}/{need_t} runs={} oomfail={} retried={}", peak.0, peak.1, sw.runs, sw.fails, sw.retried)
 }
 
 /// `import` operation line: fresh manager as described on the line
@@ -1405,7 +2192,13 @@ fn import_step<F: KindF>(nvars: u32, l2v: &[u32], not: bool, file: &[u8], ctx: &
 
 fn make_world(kind: &str, nvars: u32, l2v: &[u32], names: Option<&[String]>) -> Option<Box<dyn DynWorld>> {
     fn mk<F: KindF>(nvars: u32, l2v: &[u32], names: Option<&[String]>) -> Option<Box<dyn DynWorld>> {
-        Some(Box::new(World::<F> { mref: Mgr::<F>::new(nvars, l2v, names)?, funcs: Vec::new() }))
+        Some(Box::new(World::<F> {
+            mref: Mgr::<F>::new(nvars, l2v, names)?,
+            funcs: Vec::new(),
+            l2v: l2v.to_vec(),
+            names: names.map(|n| n.to_vec()),
+            specs: Vec::new(),
+        }))
     }
     match kind {
         "bdd" => mk::<BDDFunction>(nvars, l2v, names),
@@ -1558,6 +2351,22 @@ impl Scenario for Dddmp {
                     return "bad-op".into();
                 };
                 w.truncall(&st, &roots, ctx)
+            }
+            "oom" => {
+                let a = &ws[1..];
+                let (Some(st), Some(roots), Some(w), Some(target), Some(cmpl)) =
+                    (parse_settings(a), parse_roots(a), &self.world, kv(a, "target"), kv(a, "cmpl"))
+                else {
+                    return "bad-op".into();
+                };
+                let res: Option<Vec<RootSpec>> =
+                    split_comma(kv(a, "res").unwrap_or("-")).iter().map(|f| Some(RootSpec { func: f.to_string(), name: None })).collect();
+                let Some(res) = res else { return "bad-op".into() };
+                if cmpl != "not" && cmpl != "id" {
+                    return "bad-op".into();
+                }
+                let args = OomArgs { target: target.to_string(), not: cmpl == "not", st, roots, res, neg: kv(a, "neg") == Some("1") };
+                w.oom(&args, ctx)
             }
             "fuzz" => {
                 let a = &ws[1..];
@@ -2218,9 +3027,159 @@ fn generate_fuzz(cfg: &GenCfg, rng: &mut Rng, w: &mut dyn Write) {
     }
 }
 
+/// oracle-only suite `--suite oom`: reference counts around exports of diagrams with shared nodes
+/// (all five kinds, ASCII and binary) and imports under exhausted node / terminal capacity
+fn generate_oom(cfg: &GenCfg, rng: &mut Rng, w: &mut dyn Write) {
+    let scale = cfg.scale.max(1);
+    let mut g = G { w, world: None, kind: String::new(), nvars: 0, l2v: Vec::new(), case_no: 0, funcs: Vec::new(), allow_single_terminal_binary: false };
+    fn spec(fs: &[&str]) -> Vec<RootSpec> {
+        fs.iter().map(|f| RootSpec { func: f.to_string(), name: None }).collect()
+    }
+    fn oom_line(g: &mut G, target: &str, ascii: bool, v3: bool, roots: &str, res: &str, neg: bool) {
+        // (an MTBDD manager with a single terminal: binary mode is the known finding of the other stream)
+        let single = g.kind == "mtbdd" && g.world.as_ref().map(|w| w.info().nterm == 1).unwrap_or(false);
+        let cmpl = if target == "mtbdd" { "id" } else { "not" };
+        writeln!(
+            g.w,
+            "oom target={target} cmpl={cmpl} ascii={} ver={} roots={roots} res={res} neg={}",
+            (ascii || single) as u8,
+            if v3 { 3 } else { 2 },
+            (neg && target != "mtbdd") as u8
+        )
+        .unwrap();
+    }
+    /// exports with roots that share nodes (and a repeated root), ASCII and binary requested
+    fn export_lines(g: &mut G, rng: &mut Rng, roots: &[&str]) {
+        for ascii in [true, false] {
+            let st = ExpSettings { ascii, v3: rng.chance(1, 2), strict: false, dd: String::new() };
+            g.export(&st, &spec(roots), false);
+        }
+    }
+    // --- crafted sources
+    // parity / majority: complemented arcs to inner nodes in the BCDD, all nodes shared by the roots
+    g.case("oom-crafted-bcdd-parity");
+    if g.mgr("bcdd", 4, &[3, 1, 0, 2], None) {
+        g.func("f0", "tt=6996");
+        g.func("f1", "tt=9669");
+        g.func("f2", "tt=8ee8");
+        g.func("r0", "tt=0660");
+        g.func("r1", "tt=a5c3");
+        export_lines(&mut g, rng, &["f0", "f1", "f2", "f0"]);
+        for target in ["bcdd", "bdd", "zbdd"] {
+            for ascii in [true, false] {
+                oom_line(&mut g, target, ascii, false, "f0,f2", "r0,r1", false);
+                oom_line(&mut g, target, ascii, true, "f1,f2,f0", "r0", true);
+                oom_line(&mut g, target, ascii, false, "f2", "-", target == "bdd");
+            }
+        }
+    }
+    // many distinct terminals, special values, terminals shared with the resident functions
+    g.case("oom-crafted-mtbdd-terminals");
+    if g.mgr("mtbdd", 3, &[1, 2, 0], None) {
+        g.func("f0", "vals=1,2,3,4,5,6,7,8");
+        g.func("f1", "vals=1,2,NaN,+Inf,-Inf,9223372036854775807,-9223372036854775808,8");
+        g.func("c", "vals=42,42,42,42,42,42,42,42");
+        g.func("r0", "vals=1,1,9,9,2,2,NaN,3");
+        g.func("r1", "vals=10,11,12,13,10,11,12,13");
+        export_lines(&mut g, rng, &["f0", "f1", "c", "f0"]);
+        for (roots, res) in [("f0,f1", "r0,r1"), ("f0", "-"), ("f1,f0,f1", "r0"), ("c,c", "-"), ("c,f1", "r1"), ("f0", "f0"), ("f1", "r0,f0")] {
+            oom_line(&mut g, "mtbdd", true, false, roots, res, false);
+        }
+        oom_line(&mut g, "mtbdd", false, true, "f0,f1", "r0", false);
+    }
+    // constants and single nodes: the importer allocates (almost) nothing
+    for kind in ["bdd", "bcdd", "zbdd"] {
+        g.case(&format!("oom-crafted-{kind}-small"));
+        if g.mgr(kind, 2, &[1, 0], None) {
+            g.func("t", "tt=f");
+            g.func("z", "tt=0");
+            g.func("x", "tt=a");
+            g.func("y", "tt=6");
+            export_lines(&mut g, rng, &["t", "z", "x", "x"]);
+            for neg in [false, true] {
+                oom_line(&mut g, kind, true, false, "t,z", "-", neg);
+                oom_line(&mut g, kind, false, false, "x,t,x", "y", neg);
+                oom_line(&mut g, kind, true, true, "y,x", "x", neg);
+            }
+        }
+    }
+    // --- random sources
+    let ncases = if cfg.thorough { 40 } else { 5 } * scale;
+    for kind in ["bdd", "bcdd", "zbdd", "mtbdd"] {
+        for c in 0..ncases {
+            let nvars = if cfg.thorough { rng.range(2, 5) } else { rng.range(2, 4) } as u32;
+            g.case(&format!("oom-{kind}-{c}-n{nvars}"));
+            let mut order: Vec<u32> = (0..nvars).collect();
+            rng.shuffle(&mut order);
+            if !g.mgr(kind, nvars, &order, None) {
+                continue;
+            }
+            for f in ["f0", "f1", "r0", "r1", "r2"] {
+                let s = rand_spec(kind, rng, nvars);
+                g.func(f, &s);
+            }
+            export_lines(&mut g, rng, &["f0", "f1", "f0"]);
+            let pick_roots = |rng: &mut Rng| *rng.pick(&["f0", "f0,f1", "f0,f1", "f1,f0,f1"]);
+            let pick_res = |rng: &mut Rng| *rng.pick(&["-", "r0", "r0,r1", "r0,r1,r2", "r0,r1,r2"]);
+            let v3 = rng.chance(1, 2);
+            match kind {
+                "bdd" => {
+                    oom_line(&mut g, "bdd", true, v3, pick_roots(rng), pick_res(rng), false);
+                    oom_line(&mut g, "bdd", rng.chance(3, 4), !v3, pick_roots(rng), pick_res(rng), true);
+                    oom_line(&mut g, "bcdd", true, v3, pick_roots(rng), pick_res(rng), rng.chance(1, 2));
+                    oom_line(&mut g, "zbdd", true, v3, pick_roots(rng), pick_res(rng), rng.chance(1, 2));
+                }
+                "bcdd" => {
+                    for ascii in [true, false] {
+                        oom_line(&mut g, "bcdd", ascii, v3, pick_roots(rng), pick_res(rng), rng.chance(1, 2));
+                        oom_line(&mut g, "bdd", ascii, !v3, pick_roots(rng), pick_res(rng), rng.chance(1, 3));
+                    }
+                    oom_line(&mut g, "zbdd", true, v3, pick_roots(rng), pick_res(rng), rng.chance(1, 2));
+                }
+                "zbdd" => {
+                    oom_line(&mut g, "zbdd", true, v3, pick_roots(rng), pick_res(rng), false);
+                    oom_line(&mut g, "zbdd", rng.chance(3, 4), !v3, pick_roots(rng), pick_res(rng), true);
+                    oom_line(&mut g, "bdd", true, v3, pick_roots(rng), pick_res(rng), rng.chance(1, 2));
+                }
+                _ => {
+                    oom_line(&mut g, "mtbdd", true, v3, pick_roots(rng), pick_res(rng), false);
+                    oom_line(&mut g, "mtbdd", rng.chance(1, 2), !v3, pick_roots(rng), pick_res(rng), false);
+                }
+            }
+        }
+    }
+    // --- TDD (export only): reference counts around exports with shared nodes
+    for c in 0..ncases {
+        let nvars = rng.range(2, 5) as u32;
+        g.case(&format!("oom-tdd-{c}-n{nvars}"));
+        let mut order: Vec<u32> = (0..nvars).collect();
+        rng.shuffle(&mut order);
+        if !g.mgr("tdd", nvars, &order, None) {
+            continue;
+        }
+        for f in ["f0", "f1"] {
+            let s = rand_spec("tdd", rng, nvars);
+            g.func(f, &s);
+        }
+        export_lines(&mut g, rng, &["f0", "f1", "f0"]);
+        export_lines(&mut g, rng, &["f1"]);
+    }
+}
+
 pub fn main_with(fuzz: bool) {
-    let fuzz = fuzz || std::env::args().any(|a| a == "--fuzz");
-    harness_main(if fuzz { generate_fuzz } else { generate }, make)
+    let args: Vec<String> = std::env::args().collect();
+    let fuzz = fuzz || args.iter().any(|a| a == "--fuzz");
+    let suite = args.windows(2).find(|w| w[0] == "--suite").map(|w| w[1].clone());
+    let generator = match suite.as_deref() {
+        Some("oom") => generate_oom,
+        Some(s) => {
+            eprintln!("unknown suite {s} (known: oom)");
+            std::process::exit(2);
+        }
+        None if fuzz => generate_fuzz,
+        None => generate,
+    };
+    harness_main(generator, make)
 }
 
 #[allow(dead_code)]
